@@ -29,6 +29,79 @@ CLAIMS = {
     ),
 }
 
+
+TIE = " Tied to the code on every run: the Lean pass model must reproduce the real pass' output dump exactly on all inputs of the run (repository programs, committed corpus, seeded generated programs); the implementation's own outputs are additionally checked by the spec-layer oracles (abstract machines, typing/scoping checkers) in Lean."
+CLAIMS.update({
+    "C01": dict(level="proof", design="DESIGN.md §5 C01",
+        text="End-to-end statement over the Lean models of ALL passes (C01_statement) with the composition theorem C01_composition once delivered: links that are theorems are used directly (C05 full incl. semantics, C20 full, C15 soundness/annotation, C03 binder uniqueness and machine consistency, C04 no-panic/lifting, per-method backend contracts), the remaining semantic links are explicit hypotheses, never axioms. Decided per run by the strongest oracle available: every program is compiled by the real compiler, assembled with GNU as, linked with the real io.c and the real generated driver, run natively, and stdout bytes + exit status are compared with the Fun abstract machine (effect-sequenced programs) or the Core machine rendered through the decimal spec.",
+        note="Trusted: Lean kernel; GNU as/gcc/glibc/kernel; the syntax-only NASM->GAS transliteration; the Fun/Core reference machines (spec). Not every link of the chain is a theorem yet (see evidence obligation list).",
+        technique="composition of per-pass Lean theorems + native differential execution against the Lean reference semantics"),
+    "C02": dict(level="proof", design="DESIGN.md §5 C02",
+        text="Lean theorems for all programs: generated variables/covariables/labels are fresh and pairwise distinct and never equal a user name of the definition or a user definition name (C02_fresh_names_disjoint, C02_lifted_names_distinct); the repaired translation never places a continuation under a binder occurring free in it (C02_no_capture for all terms/continuations/states, C02_no_capture_prog). Semantic preservation Fun machine = Core machine is decided by oracle on every run (not yet a theorem)." + TIE,
+        note="Trusted: Lean kernel; model of fun2core tied by exact S2 dump equality; Fun and Core abstract machines (spec). Programs without a valid entry point are outside the semantic oracle.",
+        technique="Lean hygiene/freshness theorems + dump-equality tie + Fun-vs-Core machine oracle"),
+    "C03": dict(level="proof", design="DESIGN.md §5 C03",
+        text="Lean theorems for all programs produced by the translation (all ids 0): after uniquify+focus all binders and parameters of a definition are pairwise distinct, above the old maximum, and distinct from free ids (C03_unique_binders, _global), the executable uniqueness checker is sound; static focusing lifts exactly the argument the sigma-rule lifts with the same residual statement (C03_focus_follows_sigma), the focused machine and the sigma-machine agree on focused programs (C03_machines_agree), mu is evaluated once at data/int types and suspended by name at codata types (C03_bind_mu_*). Whole-program semantic preservation is decided by oracle (sigma-machine on S2/S2u vs focused machine on S3)." + TIE,
+        note="Trusted: Lean kernel; models of uniquify/focus tied by exact dump equality; Core abstract machine (spec).",
+        technique="Lean uniqueness theorem + focusing/sigma correspondence lemmas + dump-equality tie + machine oracle"),
+    "C04": dict(level="proof", design="DESIGN.md §5 C04",
+        text="Lean theorems: on shape-typed focused Core the shrinking model never reaches one of its panic sites (C04_no_panic); every lifted definition's parameters are exactly the typed free variables of the lifted statement, duplicate-free, passed in the same order (C04_lift_free_vars); the AxCut type checker used as oracle is sound (C04_wtAxCheck_sound). Semantic preservation (focused Core machine = AxCut named machine) is decided by oracle on every run." + TIE,
+        note="Trusted: Lean kernel; model of core2axcut tied by exact S4 dump equality; Core and AxCut named machines (spec).",
+        technique="Lean no-panic/lifting theorems + dump-equality tie + machine and typing oracles"),
+    "C05": dict(level="proof", design="DESIGN.md §5 C05",
+        text="FULL Lean proof (C05_full): for every well-formed non-linear AxCut program the linearization model succeeds, its output is typed under the ordered linear discipline (every statement meets exactly the environment it expects; operands of op/ifc/print remain available), the positional machine is type-safe on it, and named and positional machines have the same finished behaviours (C05_T4). filter_by_set / freshen lemmas (permutation, duplicate-freeness, positions kept)." + TIE + " Also on directly generated non-linear AxCut programs; the proved-sound linear type checker runs on the implementation's S5.",
+        note="Trusted: Lean kernel; model of linearize tied by exact S5 dump equality; AxCut machines and LinTyped (spec).",
+        technique="full Lean proof over the linearize model + dump-equality tie + sound checker on implementation output"),
+    "C06": dict(level="proof", design="DESIGN.md §5 C06-C08",
+        text="Lean theorems: generic code generator (Theorem A) simulated on the abstract backend machine for lit/op/print/ifc/exit/call/integer substitutions, let and create, and whole runs of integer programs; x86-64 per-method contracts (Theorem B) for ALL operand values and placements: add/sub/mul/div/rem incl. the rax/rdx/TEMP dance, moves, load_immediate (all 64-bit values, register or spill), compares and conditional jumps, label/table jumps with stride 5, skip_if_zero/if_zero_then_else, erase/share against the heap model. switch/invoke/load/store contracts are not theorems yet. Tie: linearize, generic (through the real generic code with a mock backend) and x86 backend models reproduce the real text byte for byte; oracle: the emitted text runs on the Lean x86-64 machine model (validated against native execution) and must behave like the AxCut positional machine, on generated AxCut programs (contexts to 34 variables, objects to 8 fields), the boundary family (N = 0..22 live variables across every placement-dependent statement) and pipeline outputs.",
+        note="Trusted: Lean kernel; x86-64 machine model (spec; cross-validated natively); backend/generic models tied by text equality.",
+        technique="Lean per-method contracts + partial generic simulation + text-equality tie + machine-model execution oracle"),
+    "C07": dict(level="proof", design="DESIGN.md §5 C06-C08",
+        text="As C06 for AArch64: literal synthesis correct for every 64-bit value and target (C07_load_immediate_correct), 5 operators x 8 placements incl. rem via SDIV+MSUB, compares/branches, moves, table jumps (stride 4) incl. the spilled-tag placement; generic Theorem A part shared with C06. Tie: AArch64 backend model reproduces the real text exactly; oracle: the text runs on the Lean AArch64 machine model (cross-checked against llvm-mc encodings with an independent emulator, the x86-64 model and the positional machine).",
+        note="Trusted: Lean kernel; AArch64 machine model written from the ISA (no hardware here; llvm-mc accepts the text). Some halfword identities may use bv_decide natives (listed in evidence if present).",
+        technique="Lean per-method contracts + text-equality tie + machine-model execution oracle"),
+    "C08": dict(level="proof", design="DESIGN.md §5 C06-C08",
+        text="RV64: capacity theorem (temporaries exist iff position <= 13), every operator / comparison / literal / move / exit / table jump (stride 4) correct for all values, skip/if-zero combinators, erase/share; backend model reproduces the real text exactly; on print-free programs with <= 14 live variables the RV64, AArch64 and x86-64 machine models and the positional machine must all agree (cross-backend oracle).",
+        note="Trusted: Lean kernel; RV64 machine model (LW/SW read as 64-bit as the property states; no toolchain here).",
+        technique="Lean per-method contracts + text-equality tie + cross-backend machine oracle"),
+    "C09": dict(level="proof", design="DESIGN.md §5 C09, appendix B.2",
+        text="FULL Lean proof for the heap-operation model (same algorithm in the three memory.rs): for every well-formed history of acquire/erase/share/store/load (chains, shared children, deferred erasure) the invariant of the property holds at every operation boundary and no access leaves the heap (C09_inv_all_histories, C09_inv_every_boundary); the run-time invariant checker is proved sound. Bridge to executions: the proved-sound monitor runs at every statement boundary of the emitted x86-64 / AArch64 / RV64 text on the machine models (roots from the hook comment), and x86 erase/share code is proved against the heap model; the backend models that emit the heap code are tied by text equality.",
+        note="Trusted: Lean kernel; WfOps (ops mention held roots and load objects of their shape) is assumed from linear typing and checked dynamically; machine models.",
+        technique="full Lean invariant proof over operation histories + sound run-time monitor on emulated real code"),
+    "C10": dict(level="proof", design="DESIGN.md §5 C10",
+        text="Lean theorems: acquire moves the frontier only if the linear list has exactly the block handed out and the deferred list is empty (C10_bump_only_when_empty, and conversely); along every well-formed history blocks below the frontier <= peak live blocks + 1, tight (C10_frontier_bound, C10_constant_tight); space independent of history length. Oracle: loop programs run n, 4n, 16n iterations on the machine models: highest heap address written and blocks below the frontier do not depend on n.",
+        note="Trusted: as C09.",
+        technique="Lean frontier-bound theorems + footprint measurement on emulated real code"),
+    "C12": dict(level="proof", design="DESIGN.md §5 C12",
+        text="Chain of theorems: checker output is fully annotated (C15_annotated) and well-typed (C15_sound); focus output has unique binders; shrinking never panics on shape-typed input; linearization output is linearly typed (C05 full); plus the composition file C12 once delivered. Links not yet theorems (typing preservation of fun2core/focus/shrink) are decided per program: proved-sound decidable checkers run on every IMPLEMENTATION dump (Core typing on S2/S2u, focused typing + unique binders on S3, AxCut typing on S4, linear typing on S5) and every real stage runs under catch_unwind." + TIE,
+        note="Trusted: Lean kernel; checkers are spec; programs without a valid entry point (C18) are outside the typing claim.",
+        technique="preservation theorems where proved + sound checkers on every implementation dump + panic capture"),
+    "C13": dict(level="proof", design="DESIGN.md §5 C13",
+        text="Lean theorems for x86-64 and AArch64: prologue/epilogue restore all callee-saved registers and the stack pointer for every body keeping its frame (C13_prologue_epilogue), stack alignment at the print call for EVERY context (C13_print_alignment / sp_moves_aligned), and on the undefined-value machine the print sequence preserves every live temporary, HEAP, FREE and the heap and reads nothing undefined, for EVERY context length and kind assignment (C13_print_preserves; AArch64 without the former length restriction). Oracle: the emitted text runs on the machine models with calling-convention checks (callee-saved sentinels, alignment faults, undefined reads after the call clobbers) on generated programs and the boundary family 0..22 live variables.",
+        note="Trusted: Lean kernel; machine models' rendering of the ABI (clobber sets).",
+        technique="Lean calling-convention theorems for all contexts + poison-machine oracle on real text"),
+    "C14": dict(level="proof", design="DESIGN.md §5 C14",
+        text="Lean theorems: every referenced label is defined (labels_defined, full), labels unique under the decidable name condition LabelSafe with six machine-checked collision witnesses showing each condition is necessary, jump tables have one fixed-size entry per clause directly after the label and tags are jump_length(position) (table_stride), operand ranges of every instruction any x86-64 program can contain (C14_program_operand_ranges) and of every AArch64 / RV64 method. Oracle: well-formedness checker on the real text of all three backends, GNU as must accept x86-64, llvm-mc must accept AArch64.",
+        note="Trusted: Lean kernel; assemblers as oracles; label collisions for adversarial user names are a documented finding class (see known_findings).",
+        technique="Lean label/operand/stride theorems + assembler acceptance oracle"),
+    "C15": dict(level="proof", design="DESIGN.md §5 C15",
+        text="FULL Lean proof (C15_full): the checker model accepts exactly the programs well-typed under the declarative relation WT and every rejection is a diagnostic; soundness also gives erasure and full annotation; 30 mutation lemmas show each of the 16 edit classes leaves WT. Tie: verdict, diagnostic code and annotated tree of the model equal the real checker's on programs and thousands of mutants; a disagreement in accept/reject is reported with the program.",
+        note="Trusted: Lean kernel; WT (spec); model of the checker tied by exact S1 equality.",
+        technique="full Lean soundness+completeness proof + differential testing on programs and mutants"),
+    "C16": dict(level="proof", design="DESIGN.md §5 C16",
+        text="Lean proof for the whole language: for every program the parser model accepts that satisfies the decidable zero-edge condition, printing with ANY layout (the pretty algorithm is proved to be one) at any width/indent re-parses to the same tree and printing is idempotent (C16_restricted, C16_fmt); the condition is necessary (machine-checked witnesses = the recorded known finding). Tie: the printer model's text is byte-identical to the real formatter, the parser model equals the real parser; the real formatter is run at many widths x indents and re-parsed.",
+        note="Trusted: Lean kernel; lalrpop/pretty are modelled (models tied by differential testing); the token table is regenerated from fun.lalrpop and compared by a theorem.",
+        technique="Lean round-trip proof under a decidable side condition + differential testing of parser/printer models"),
+    "C18": dict(level="proof", design="DESIGN.md §5 C18",
+        text="Lean theorem: the parser model never returns the panic outcome on any input for the literal action found in the source now (C18_parse_current via C18_parse_statement_fixed; the action variant and the token table are regenerated from fun.lalrpop on every run), the checker model never panics (C15_no_panic). Oracle: real parse/check and every later stage under catch_unwind on thousands of token/byte mutants, extreme literals, deep nesting; outcome class must equal the model's.",
+        note="Trusted: Lean kernel; stack depth is outside the model; later stages only for valid entry points; capacity assertions excepted as the property says.",
+        technique="Lean totality-without-panic theorem + catch_unwind differential fuzzing"),
+    "C19": dict(level="proof", design="DESIGN.md §5 C19",
+        text="Lean theorems: fun2core output size <= 3 n (2n+4) for source size n, unconditionally (C19_fun2core_full), a non-leaf continuation is inserted at most once (C19_compile_cont_inserted_once); shrinking output <= (maxXtors+1) * input size (C19_shrink_size). Oracle: scalable families at depth 1..K: every stage's measured size must grow polynomially (exponent <= 3).",
+        note="Trusted: Lean kernel; focus/linearize/codegen size bounds are measured, not proved.",
+        technique="Lean size-bound theorems + growth measurement on scalable families"),
+})
+
 PENDING_REASON = "check not built yet (work in progress, see DESIGN.md section 9)"
 
 
